@@ -126,7 +126,7 @@ def run(chk, prog):
     from .. import main as _main
     _main.check_anchors("C03", prog)
     c03.run(sub, prog)
-    r = [i for i in sub.instances if i["rule"] in ("R1", "R3")]
+    r = [i for i in sub.instances if i["rule"] in ("R1", "R3", "R9")]
     for i in r:
         chk.check(i["ok"], "R4", i["site"], "(C03/%s) %s" % (i["rule"], i["what"].split("\n")[0][:220]), "C03-%s:%s" % (i["rule"], i.get("key", "ok")))
     chk.floor("R4-rf-drift-conditions", len(r), 8)
@@ -161,5 +161,10 @@ def run(chk, prog):
     from . import dimrules
     nrd = dimrules.run(chk, prog, "RD")
     chk.floor("RD-requirements", nrd or 0, 0)
+    # ---- R9: the interpolation adds no diffusion of its own beyond its order -------------------------------------------------------------------------
+    # the n-point weights reproduce every moment below n (sum_k w_k*node_k^m = f^m, m < n); a wrong second moment is an artificial diffusion
+    # applied with every kick and drift, which the damping cannot balance at unit width (decided under C02 R1; re-evaluated here)
+    from .common import reeval
+    reeval(chk, prog, "C02", lambda i: i["rule"] == "R1" and "moment" in i["what"], "R9", "R9-interpolation-moments", 8)
     chk.notes.append("C05: step order and grid chaining from the constructor bindings, freshness of the wake offsets at the kick, copy-without-arithmetic. "
                      "NOT decided: that the stationary profile satisfies the Haissinski relation.")
